@@ -48,6 +48,11 @@ func runConc(seed int64, rounds int) int {
 		fA := ecs.NewFilter1[C0](w)
 		fAB := ecs.NewFilter2[C0, C1](w)
 		fRel := ecs.NewFilter2[C0, C4](w)
+		if round%2 == 1 {
+			// a filter that was used for a batch before keeps spare capacity in its relation slice:
+			// per-query targets must still not be shared between simultaneously open queries
+			_ = fRel.Batch(ecs.RelIdx(1, parents[1]))
+		}
 		fRelFixed := ecs.NewFilter2[C0, C4](w).Relations(ecs.RelIdx(1, parents[0]))
 		fCached := ecs.NewFilter1[C0](w).Register()
 		fCachedRel := ecs.NewFilter2[C0, C4](w).Relations(ecs.RelIdx(1, parents[1])).Register()
